@@ -252,11 +252,11 @@ Qed.
 
 Lemma map_bases_frame stk ex obs (k : st -> list addr -> res) :
   (forall s l s' r, k s l = Ok s' r -> gframeX stk ex s s') ->
-  forall nbs s acc s' r, map_bases rec stk obs nbs s acc k = Ok s' r -> gframeX stk ex s s'.
+  forall nbs s acc s' r, map_bases modname nm rec stk obs nbs s acc k = Ok s' r -> gframeX stk ex s s'.
 Proof.
   intros Hk. induction nbs as [|nb nbs IH]; intros s acc s' r H; simpl in H.
   - eapply Hk. exact H.
-  - destruct (find_old_base (hp s) obs nb) as [ob|].
+  - destruct (base_counterpart modname nm (hp s) obs nb) as [ob|].
     + apply bind_ok in H. destruct H as [s2 [u [Hr H]]].
       eapply gframeX_trans; [eapply rec_frameX; exact Hr|]. eapply IH. exact H.
     + eapply IH. exact H.
